@@ -16,6 +16,7 @@ func init() {
 	register("compose", composeKind)
 	register("protect", protectKind)
 	register("patchrt", patchRTKind)
+	register("ctor", ctorKind)
 }
 
 func toDoc(v interface{}) document.Document {
@@ -129,4 +130,43 @@ func patchRTKind(c *proto.Case) interface{} {
 		out["applied"] = jsonRound(res)
 	}
 	return out
+}
+
+// bytesRoundTrip: Bytes -> FromBytes gives an equal patch whose accessors agree with the original's.
+func bytesRoundTrip(p patch.Patch) bool {
+	b, err := p.Bytes()
+	if err != nil {
+		return false
+	}
+	back, err := patch.FromBytes(b)
+	if err != nil || !reflect.DeepEqual(jsonRound(back), jsonRound(p)) {
+		return false
+	}
+	a1, e1 := p.GetAction()
+	a2, e2 := back.GetAction()
+	v1, e3 := p.GetValue()
+	v2, e4 := back.GetValue()
+	return e1 == nil && e2 == nil && e3 == nil && e4 == nil && a1 == a2 && reflect.DeepEqual(jsonRound(v1), jsonRound(v2))
+}
+
+// ctorKind: C14. One of the eight patch constructors on an argument text: the patch it makes, whether that
+// patch passes validation, and its byte round trip.
+func ctorKind(c *proto.Case) interface{} {
+	text := string(c.Bytes("arg"))
+	ctors := map[string]func(string) (patch.Patch, error){
+		"replace": patch.NewReplacePatch, "ietf-json-patch": patch.NewJSONPatch,
+		"add-public-keys": patch.NewAddPublicKeysPatch, "remove-public-keys": patch.NewRemovePublicKeysPatch,
+		"add-services": patch.NewAddServiceEndpointsPatch, "remove-services": patch.NewRemoveServiceEndpointsPatch,
+		"add-also-known-as": patch.NewAddAlsoKnownAs, "remove-also-known-as": patch.NewRemoveAlsoKnownAs,
+	}
+	f, ok := ctors[c.Str("ctor")]
+	if !ok {
+		return M{"class": "out-of-domain"}
+	}
+	var p patch.Patch
+	if cls := guarded(func() error { var err error; p, err = f(text); return err }); cls != "ok" {
+		return M{"class": cls}
+	}
+	return M{"class": "ok", "patch": jsonRound(p), "validate": guarded(func() error { return patchvalidator.Validate(p) }),
+		"bytes_roundtrip": bytesRoundTrip(p)}
 }
